@@ -15,6 +15,7 @@ import Flamego.Driver.Access
 import Flamego.Driver.Render
 import Flamego.Driver.Chain
 import Flamego.Driver.Noop
+import Flamego.Driver.Dsl
 open Flamego Flamego.Driver
 
 def dispatch (o : Oracle) (kind : String) (args : List String) (body : List (List String)) : List String :=
@@ -29,6 +30,7 @@ def dispatch (o : Oracle) (kind : String) (args : List String) (body : List (Lis
   | "render" => Render.session args body
   | "chain" => Chain.session args body
   | "noop" => Noop.session args body
+  | "dsl" => Dsl.session args body
   | _ => "bad-kind" :: body.map (fun _ => "bad-kind")
 
 def dispatchQueries (kind : String) (args : List String) (body : List (List String)) : List String :=
